@@ -52,6 +52,12 @@ func Generate(profile string, seed uint64, tier string) (*Scenario, error) {
 	case "C05":
 		sc.Property = "C05"
 		genC05(g, sc, tier)
+	case "C02c":
+		sc.Property = "C02"
+		genC02c(g, sc, tier)
+	case "C04":
+		sc.Property = "C04"
+		genC04(g, sc, tier)
 	default:
 		return genOther(g, sc, profile, tier)
 	}
@@ -178,8 +184,10 @@ func Execute(sc *Scenario) *Verdict {
 	switch sc.Profile {
 	case "C01", "C02", "C03":
 		return RunStoreScenario(sc)
-	case "C05":
+	case "C05", "C02c":
 		return RunConcScenario(sc)
+	case "C04":
+		return RunCrashScenario(sc)
 	}
 	return execOther(sc)
 }
@@ -190,4 +198,103 @@ func genOther(g *G, sc *Scenario, profile, tier string) (*Scenario, error) {
 
 func execOther(sc *Scenario) *Verdict {
 	return &Verdict{Verdict: "error", Message: "unknown profile " + sc.Profile, Seed: sc.Seed}
+}
+
+// genC02c: concurrent writers on one or two datasets interleaved with token-carrying readers.
+func genC02c(g *G, sc *Scenario, tier string) {
+	c := g.baseStoreCfg(tier)
+	c.Datasets = []string{"dsA", "dsB"}[:g.Range(1, 2)]
+	c.PNested = 0
+	c.MaxBatch = g.Range(1, 3)
+	sc.Datasets = c.Datasets
+	m := NewModel()
+	for _, d := range c.Datasets {
+		m.Create(d)
+	}
+	nw := g.Range(2, 3)
+	for w := 0; w < nw; w++ {
+		var ops []Op
+		n := g.Range(1, 4)
+		for i := 0; i < n; i++ {
+			mark := fmt.Sprintf("t%do%d", w, i)
+			if len(c.Datasets) > 1 && g.P(0.3) {
+				var parts []Part
+				for _, d := range c.Datasets {
+					ents := g.batch(c, m, d)
+					uniqueMark(ents, mark+d)
+					parts = append(parts, Part{DS: d, Ents: ents})
+				}
+				ops = append(ops, Op{K: "txn", Parts: parts})
+			} else {
+				ds := c.Datasets[0]
+				if g.P(0.25) {
+					ds = g.Pick(c.Datasets)
+				}
+				ents := g.batch(c, m, ds)
+				uniqueMark(ents, mark)
+				ops = append(ops, Op{K: "batch", DS: ds, Ents: ents})
+			}
+		}
+		sc.Tasks = append(sc.Tasks, ops)
+	}
+	nr := g.Range(1, 2)
+	for rr := 0; rr < nr; rr++ {
+		var ops []Op
+		latest := g.P(0.3)
+		ds := c.Datasets[0]
+		n := g.Range(3, 9)
+		for i := 0; i < n; i++ {
+			ops = append(ops, Op{K: "readTok", DS: ds, Latest: latest, Limit: g.PickInt([]int{0, 0, 1, 2, 3})})
+		}
+		sc.Tasks = append(sc.Tasks, ops)
+	}
+	sc.Knobs["schedSeed"] = int64(g.r.Uint64() >> 1)
+	sc.Knobs["preemptPct"] = int64(g.PickInt([]int{10, 20, 35, 50, 70}))
+}
+
+// genC04: short write histories with crashes at named points, at WAL byte offsets and injected
+// commit errors.
+func genC04(g *G, sc *Scenario, tier string) {
+	c := g.baseStoreCfg(tier)
+	c.NOps = g.Range(2, 7)
+	c.PRestart = 0
+	c.PNested = 0
+	c.PTxn = 0.35
+	if len(c.Datasets) < 2 && g.P(0.7) {
+		c.Datasets = []string{"dsA", "dsB"}
+	}
+	sc.Datasets = c.Datasets
+	sc.Ops = g.GenStoreHistory(c)
+	for i := range sc.Ops {
+		if sc.Ops[i].K == "txn" && g.P(0.3) {
+			sc.Ops[i].K = "ctxtxn"
+		}
+	}
+	// named crash points
+	if g.P(0.15) {
+		sc.Knobs["allPoints"] = 1
+	} else {
+		n := g.Range(0, 4)
+		for i := 0; i < n; i++ {
+			sc.Faults = append(sc.Faults, Fault{At: g.Pick(crashablePoints), Hit: g.Range(1, 2*len(sc.Ops)), Kind: "crash"})
+		}
+	}
+	// injected commit errors
+	if g.P(0.3) {
+		pt := g.Pick([]string{"StoreEntities.idCommit", "StoreEntities.dataCommit", "ExecuteTransaction.dataCommit"})
+		sc.Faults = append(sc.Faults, Fault{At: "fault:" + pt, Hit: g.Range(1, 4), Kind: "error"})
+	}
+	// WAL-prefix crashes
+	for i := range sc.Ops {
+		if g.P(0.5) {
+			sc.Cuts = append(sc.Cuts, [2]int64{int64(i), 1000})
+		}
+		if g.P(0.5) {
+			sc.Cuts = append(sc.Cuts, [2]int64{int64(i), 999})
+		}
+		for k := g.Intn(3); k > 0; k-- {
+			sc.Cuts = append(sc.Cuts, [2]int64{int64(i), int64(g.Range(1, 998))})
+		}
+	}
+	sc.Knobs["maxStates"] = 14
 }
